@@ -66,6 +66,181 @@ def logic_row_lemma(run, rowsem, sel, op):
     return len(comps)
 
 
+# ---- univariate root finding over F_r (for the merged-component forgery)
+def _pmod(a, f):
+    a = a[:]
+    while len(a) >= len(f):
+        c = a[-1]
+        if c:
+            for i in range(len(f)):
+                a[len(a) - len(f) + i] = (a[len(a) - len(f) + i] - c * f[i]) % R
+        a.pop()
+    while a and a[-1] == 0:
+        a.pop()
+    return a
+
+
+def _pmul(a, b, f):
+    if not a or not b:
+        return []
+    out = [0] * (len(a) + len(b) - 1)
+    for i, x in enumerate(a):
+        if x:
+            for j, y in enumerate(b):
+                out[i + j] = (out[i + j] + x * y) % R
+    return _pmod(out, f)
+
+
+def _ppow(base, e, f):
+    res, b = [1], _pmod(base, f)
+    while e:
+        if e & 1:
+            res = _pmul(res, b, f)
+        b = _pmul(b, b, f)
+        e >>= 1
+    return res
+
+
+def _pgcd(a, b):
+    while b:
+        inv = pow(b[-1], R - 2, R)
+        b = [x * inv % R for x in b]
+        a, b = b, _pmod(a, b)
+    if a:
+        inv = pow(a[-1], R - 2, R)
+        a = [x * inv % R for x in a]
+    return a
+
+
+def poly_roots(coeffs):
+    """roots in F_r of sum coeffs[i] x^i (low degree), by gcd with x^r - x and random splitting"""
+    f = [c % R for c in coeffs]
+    while f and f[-1] == 0:
+        f.pop()
+    if len(f) <= 1:
+        return []
+    inv = pow(f[-1], R - 2, R)
+    f = [c * inv % R for c in f]
+    xr = _ppow([0, 1], R, f)
+    d = xr[:] + [0] * max(0, 2 - len(xr))
+    d[1] = (d[1] - 1) % R
+    while d and d[-1] == 0:
+        d.pop()
+    g = _pgcd(f, d) if d else f
+    roots, stack, rnd = [], [g], random.Random(5)
+    while stack:
+        h = stack.pop()
+        if len(h) <= 1:
+            continue
+        if len(h) == 2:
+            roots.append((-h[0]) % R)
+            continue
+        for _ in range(40):
+            sft = rnd.randrange(R)
+            t = _ppow([sft, 1], (R - 1) // 2, h)
+            t = t + [0] * max(0, 1 - len(t))
+            t[0] = (t[0] - 1) % R
+            while t and t[-1] == 0:
+                t.pop()
+            k = _pgcd(h, t) if t else h
+            if 1 < len(k) < len(h):
+                q_, rem = h[:], []
+                # exact division h / k
+                quo = [0] * (len(h) - len(k) + 1)
+                hh = h[:]
+                for i in range(len(quo) - 1, -1, -1):
+                    quo[i] = hh[i + len(k) - 1]
+                    for j in range(len(k)):
+                        hh[i + j] = (hh[i + j] - quo[i] * k[j]) % R
+                stack += [k, quo]
+                break
+    return roots
+
+
+def merged_logic_forgery(run, rowsem, sel, op):
+    """The logic widget splits into fewer than five independent components: two identities of a row
+    are only enforced through their sum.  Search a row assignment (quads A, B honest, a WRONG output
+    quad D, product wire w = a root of the merged polynomial) that satisfies every real component,
+    plant it in a one-pair gadget, let the solver complete and confirm the assignment, and replay it
+    through the real prover and verifier."""
+    ctx = rowsem.ctx
+    zero = ctx.const(0)
+    A, B, D, w = ctx.var("A"), ctx.var("B"), ctx.var("D"), ctx.var("w")
+    names = ["a", "b", "c", "d", "a_w", "b_w", "d_w"]
+    v = {n: ctx.var(n) for n in names}
+    comps = [c for n_, c in rowsem.row_components(sel, v) if n_.startswith("logic")]
+    inst = xe.subst(ctx, comps, {"a": zero, "b": zero, "d": zero, "a_w": A, "b_w": B, "d_w": D, "c": w})
+    found = None
+    for a_ in range(4):
+        for b_ in range(4):
+            good = (a_ & b_) if op == "and" else (a_ ^ b_)
+            for d_ in range(4):
+                if d_ == good or found:
+                    continue
+                cs = xe.subst(ctx, inst, {"A": ctx.const(a_), "B": ctx.const(b_), "D": ctx.const(d_)})
+                cand = None
+                okc = True
+                for c in cs:
+                    ex = xe.expand(c, {}, cap=64)
+                    if ex is None:
+                        okc = False
+                        break
+                    co = {}
+                    for mono, cf in ex.items():
+                        deg = sum(k for _, k in mono)
+                        co[deg] = (co.get(deg, 0) + cf) % R
+                    if not any(co.get(k, 0) for k in co if k > 0):
+                        if co.get(0, 0) % R:
+                            okc = False
+                            break
+                        continue
+                    rts = poly_roots([co.get(k, 0) for k in range(max(co) + 1)])
+                    cand = set(rts) if cand is None else cand & set(rts)
+                if okc and cand:
+                    found = (a_, b_, d_, sorted(cand)[0])
+    if not found:
+        run.notes.append("the logic widget has fewer than five components but no merged-component forgery was found")
+        return
+    a_, b_, d_, w_ = found
+    layout, _ = extract(run, ["logic", op, 1], env={"a": "%064x" % a_, "b": "%064x" % b_})
+    lrows = [i for i in range(layout.init_rows, len(layout.gates)) if layout.gates[i][0][LOGIC] % R]
+    if len(lrows) != 1:
+        run.notes.append("merged-component forgery: one-pair gadget does not have exactly one logic row")
+        return
+    i = lrows[0]
+    wr, nx = layout.gates[i][1], layout.gates[i + 1][1]
+    forged = {wr[2]: w_, nx[3]: d_}
+    q = xe.Query()
+    xe.encode_layout(q, rowsem, layout)
+    for k in range(len(layout.witnesses)):
+        nm = smt.vname(xe.wname(k))
+        if nm in q.vars:
+            q.add(f"(= {nm} {forged.get(k, layout.witnesses[k])})")
+    r = smt.check(q.lines(), q.asserts, "z3", 60, get_model=False)
+    model = {smt.vname(xe.wname(k)): forged.get(k, x) for k, x in enumerate(layout.witnesses)}
+    oi, ai, bi = layout.returned["out"], layout.inputs["a"], layout.inputs["b"]
+
+    def violated(m):
+        ov = m.get(smt.vname(xe.wname(oi)), 0) % R
+        exp = (a_ & b_) if op == "and" else (a_ ^ b_)
+        return ov != exp, {"a": a_, "b": b_, "out": ov, "expected": exp, "product_wire": hex(w_)}
+    ok, det = (False, {"solver_on_forged_assignment": r.status})
+    if r.status == "sat":
+        ok, det = gadget_replay(run, ["logic", op, 1], layout, violated)(model)
+    import json
+    import os
+    d = os.path.join(fw.OUT, "cex")
+    os.makedirs(d, exist_ok=True)
+    path = os.path.join(d, f"C10_merged_components_{op}.json")
+    json.dump({"property": "C10", "what": "two identities of the logic row are enforced only through their sum",
+               "row_assignment": {"A": a_, "B": b_, "D_wrong": d_, "w": hex(w_)}, "replay_detail": det,
+               "replayed": ok}, open(path, "w"), indent=1)
+    if ok:
+        run.violations.append((f"logic/{op}/merged-components", path))
+    else:
+        run.notes.append(f"merged-component forgery for {op} did not verify end to end")
+
+
 def run(run):
     rowsem = load_rowsem(run)
     pats = range_patterns(run)
@@ -92,6 +267,8 @@ def run(run):
                 key = (op, tuple(sel))
                 if key not in lemma_done:
                     lemma_done[key] = logic_row_lemma(run, rowsem, sel, op)
+                    if lemma_done[key] < 5:
+                        merged_logic_forgery(run, rowsem, sel, op)
             blocks = [b for b in pats.find_blocks(layout) if b[1] - b[0] >= 3 and b[2] <= 254]
             used |= {b[2] for b in blocks}
             skip = set(lrows)
